@@ -75,11 +75,16 @@ LooksNumeric(s) == /\ Len(s) >= 1
                                             /\ \/ k = Len(s)
                                                \/ k + 2 <= Len(s) /\ s[k+1] = 46 /\ \A j \in (k+2)..Len(s) : IsDigitCp(s[j])
 
+(* A string that Go-style float parsing might accept (sign, then a digit, a point, or the start of inf/nan): whether such a
+   string is coerced to a number is left open, so the cell is unspecified.  Every other string is definitely not a number. *)
+MaybeNumeric(s) == LET t == IF Len(s) >= 1 /\ s[1] \in {43, 45} THEN Tail(s) ELSE s IN
+                   Len(t) >= 1 /\ (IsDigitCp(t[1]) \/ t[1] \in {46, 105, 73, 110, 78})
+
 (* operand of an arithmetic / comparison / bitwise operator or numeric built-in *)
 NumOperand(v) == CASE v.t = "num" -> Val(v.n)
                    [] v.t = "approx" -> Unspec("inexact-operand")
                    [] v.t = "anybool" -> Unspec("anybool-operand")
-                   [] v.t = "str" -> (IF LooksNumeric(v.s) THEN Unspec("numeric-string") ELSE Err("operand"))
+                   [] v.t = "str" -> (IF LooksNumeric(v.s) \/ MaybeNumeric(v.s) THEN Unspec("numeric-string") ELSE Err("operand"))
                    [] OTHER -> Err("operand")
 
 (* ---- equality ---- *)
